@@ -130,6 +130,13 @@ pub fn run(rep: &mut Report) {
                 .filter(|w| w[0].0 != w[1].0)
                 .count();
             rep.count_n("log.thread_switches", interleaved as u64);
+            // every batch goes into the map under exactly one lock / unlock pair
+            let cnt = |k: &str| out.log.iter().filter(|e| e.1 == k).count();
+            rep.count_n("log.lock_events", cnt("lock") as u64);
+            if cnt("lock") != inputs.len() || cnt("unlock") != inputs.len() || cnt("merged") != inputs.len() {
+                rep.fail("oracle", None, format!("{} inputs merged under {} lock and {} unlock events ({} merged events): a batch must be written under one acquisition of the result-map mutex",
+                    inputs.len(), cnt("lock"), cnt("unlock"), cnt("merged")), case.clone());
+            }
             match log_to_request(&out, threads, false, inputs.len(), &[]) {
                 Ok(req) => {
                     if reqs.is_empty() {
@@ -158,7 +165,79 @@ pub fn run(rep: &mut Report) {
         }
     }
     rep.count_n("traces_validated", reqs.len() as u64);
+    lock_negatives(rep, &reqs);
     capacity_cases(rep, &mut rng);
+}
+
+/// Unit-style negative tests of the trace validator on REAL logs: the accepted request of a run is
+/// edited the way a broken mutex discipline would show in the log, and the model must refuse it.
+///  * overlap: the lock lines of two workers swapped so that the second section opens before the
+///    first is closed;
+///  * split: one batch written under two lock/unlock pairs (what an `add_results` that releases the
+///    mutex between taking an entry out and putting it back logs, if its acquisitions are logged);
+///  * no-unlock: a `merged` without the `unlock` of its section;
+///  * no-lock: a `merged` with no section at all.
+fn lock_negatives(rep: &mut Report, reqs: &[String]) {
+    let mut tests: Vec<(String, String)> = vec![];
+    let mut used = 0;
+    // the shortest logs first: refusing a log means exhausting the search for a realisation
+    let mut sorted: Vec<&String> = reqs.iter().collect();
+    sorted.sort_by_key(|r| r.len());
+    for req in sorted {
+        if used >= 6 {
+            break;
+        }
+        let toks: Vec<&str> = req.split(' ').collect();
+        let xi = match toks.iter().position(|t| t.starts_with("X:")) {
+            Some(i) => i,
+            None => continue,
+        };
+        let x: Vec<&str> = toks[xi][2..].split(',').collect();
+        // two consecutive sections of different workers
+        let pos = (0..x.len().saturating_sub(3)).step_by(2).find(|&i| x[i].trim_end_matches('l') != x[i + 2].trim_end_matches('l'));
+        let wi = match toks.iter().position(|t| t.starts_with("W:") && t.contains(",l,u,")) {
+            Some(i) => i,
+            None => continue,
+        };
+        used += 1;
+        let rebuild = |ti: usize, new: String| -> String {
+            toks.iter().enumerate().map(|(i, t)| if i == ti { new.clone() } else { t.to_string() }).collect::<Vec<_>>().join(" ")
+        };
+        if let Some(i) = pos {
+            let mut y: Vec<String> = x.iter().map(|s| s.to_string()).collect();
+            y.swap(i + 1, i + 2);
+            tests.push(("overlap".into(), rebuild(xi, format!("X:{}", y.join(",")))));
+        }
+        let w = toks[wi].to_string();
+        let widx = toks[..wi].iter().filter(|t| t.starts_with("W:")).count();
+        // the edited worker list plus a consistent X (the extra pair right after the first one of that worker)
+        let split_w = w.replacen(",l,u,", ",l,u,l,u,", 1);
+        let mut y: Vec<String> = x.iter().map(|s| s.to_string()).collect();
+        if let Some(j) = y.iter().position(|e| *e == format!("{}u", widx)) {
+            y.insert(j + 1, format!("{}l", widx));
+            y.insert(j + 2, format!("{}u", widx));
+        }
+        let split_req = rebuild(wi, split_w);
+        tests.push(("split".into(), split_req.replace(toks[xi], &format!("X:{}", y.join(",")))));
+        tests.push(("no-unlock".into(), rebuild(wi, w.replacen(",l,u,", ",l,", 1))));
+        tests.push(("no-lock".into(), rebuild(wi, w.replacen(",l,u,", ",", 1))));
+    }
+    let reqs2: Vec<String> = tests.iter().map(|t| t.1.clone()).collect();
+    let ans = run_model(&reqs2, &rep.workdir, "locknegatives");
+    for (i, a) in ans.iter().enumerate() {
+        rep.case(&format!("lock-negative {} {}", tests[i].0, i), true);
+        rep.count(&format!("lock_negative.{}", tests[i].0));
+        if a.starts_with("rejected fuel") {
+            rep.notes.push(format!("lock-negative {}: search budget exhausted (inconclusive)", tests[i].0));
+            rep.count("lock_negative.inconclusive");
+        } else if !a.starts_with("rejected") {
+            rep.disagreements_checked += 1;
+            rep.fail("disagreement", None, format!("the trace validator accepts a log edited to show a broken mutex discipline ({}): {}", tests[i].0, a),
+                json!({"op": "lock-negative", "kind": tests[i].0, "request": tests[i].1, "model": a}));
+        } else {
+            rep.count(&format!("lock_negative.rejected.{}", a.split(' ').nth(1).unwrap_or("?")));
+        }
+    }
 }
 
 /// Capacity of the work queue: one worker, eight inputs that take long to parse. The producer
